@@ -150,7 +150,7 @@ static void spec_line(const char *p, struct spec *s)
   /* continuation := b+ text, text without any byte of D, Cm or '"' */
   bool any_delim = false, any_special = false;
   for (size_t k = i; k < n; k++) {
-    if (is_nb_delim(p[k])) any_delim = true;
+    if (in_set(p[k], DELIM)) any_delim = true;   /* incl. blanks when the set has them */
     if (in_set(p[k], COMMENT) || p[k] == '"' || !(is_print(p[k]) || is_blank(p[k]))) any_special = true;
   }
   if (DELIM[0] && i > 0 && !any_delim && !any_special && !(delim_has_blank() && delim_has_nonblank())) {
